@@ -20,8 +20,10 @@ def main(argv):
             art = json.load(f)
         mod = importlib.import_module('mc.checks.' + art['property'].lower())
         viols = mod.replay(art['part'], unjson(art['case']))
+        import re
+        scrub = lambda t: re.sub(r'0x[0-9a-fA-F]+', '0x..', str(t))[:400]     # object addresses differ between processes
         res = {'violated': bool(viols),
-               'observed': [(v['sig'], str(v['detail'])[:400]) for v in viols][:5]}
+               'observed': [(v['sig'], scrub(v['detail'])) for v in viols][:5]}
         print('REPLAY-RESULT ' + json.dumps(res, sort_keys=True))
         if viols:
             print('VIOLATION property=%s replay=%s' % (art['property'], argv[1]))
